@@ -141,11 +141,18 @@ pub fn std_call(cx: &mut Ctx, full: &str, _turbofish: &[Ty], args: &[&syn::Expr]
       if let (Ty::Addr(t), true) = (&x.ty, full.starts_with("Box")) {
         // Box::from_raw(address as *mut T): a Box of one T at that address
         if matches!(**t, Ty::SliceOf(_)) { return Err("Box::from_raw of a bare slice address".into()); }
-        let ty = Ty::Box_(t.clone());
+        let ty = match (&**t, _expected) {
+          (Ty::Unknown, Some(e @ Ty::Box_(_))) => e.clone(),
+          (Ty::Unknown, _) => return Err("Box::from_raw of a pointer of unknown type".into()),
+          _ => Ty::Box_(t.clone()),
+        };
         let (code, pure) = cx.seq_pub(vec![x], |v| (format!("(cont_of_addr {})", v[0]), true));
         return Ok(Some(Tr { code, ty, pure }));
       }
-      let inner = match &x.ty { Ty::RawCont(t) => (**t).clone(), other => return Err(format!("from_raw of {:?}", other)) };
+      let mut inner = match &x.ty { Ty::RawCont(t) => (**t).clone(), other => return Err(format!("from_raw of {:?}", other)) };
+      if let (Ty::SliceOf(e), Some(Ty::Box_(ex))) = (&inner, _expected) {
+        if **e == Ty::Unknown { inner = (**ex).clone(); }   // a dangling pointer takes the type it is used at
+      }
       let ty = if full.starts_with("Box") { Ty::Box_(Box::new(inner)) } else if full.starts_with("Rc") { Ty::Rc_(Box::new(inner)) } else { Ty::Arc_(Box::new(inner)) };
       Ok(Some(Tr { code: x.code, ty, pure: x.pure }))
     }
@@ -189,6 +196,27 @@ pub fn std_call(cx: &mut Ctx, full: &str, _turbofish: &[Ty], args: &[&syn::Expr]
         Ty::Addr(_) => Ok(Some(x)),
         other => Err(format!("NonNull::new_unchecked of {:?}", other)),
       }
+    }
+    ("alloc_zeroed", 1) | ("alloc::alloc::alloc_zeroed", 1) => {
+      // the global allocator's answer is an oracle of the environment (0 = null = failure)
+      let l = cx.expr(args[0], None)?;
+      if l.ty != Ty::Layout || !l.pure { return Err("alloc_zeroed of something that is not a layout".into()); }
+      Ok(Some(Tr::pure(format!("(alloc_zeroed_m ENV {})", l.code), Ty::Addr(Box::new(Ty::U8)))))
+    }
+    ("NonNull::dangling", 0) | ("core::ptr::NonNull::dangling", 0) | ("ptr::NonNull::dangling", 0) => {
+      Ok(Some(Tr::pure("DANGLING", Ty::Addr(Box::new(Ty::Unknown)))))
+    }
+    ("Layout::array", 1) | ("core::alloc::Layout::array", 1) | ("alloc::Layout::array", 1) if _turbofish.len() == 1 => {
+      let n = cx.expr(args[0], Some(&Ty::Usize))?;
+      let t = ty_term(&_turbofish[0], &cx.cty_names())?;
+      let (code, pure) = cx.seq_pub(vec![n], |v| (format!("(layout_array_m {} {})", t, v[0]), true));
+      // Result<Layout, LayoutError>: the error carries no information
+      Ok(Some(Tr { code, ty: Ty::Result(Box::new(Ty::Layout), Box::new(Ty::Unit)), pure }))
+    }
+    ("Vec::new", 0) => {
+      let elem = match _expected { Some(Ty::Vec_(e)) => (**e).clone(), other => return Err(format!("Vec::new() of unknown element type ({:?})", other)) };
+      let t = ty_term(&elem, &cx.cty_names())?;
+      Ok(Some(Tr::pure(format!("(vec_new {})", t), Ty::Vec_(Box::new(elem)))))
     }
     ("ManuallyDrop::new", 1) => {
       let x = cx.expr(args[0], None)?;
@@ -278,7 +306,14 @@ pub fn alloc_vocab_method(cx: &mut Ctx, m: &syn::ExprMethodCall, recv: Tr, name:
     }
   }
   if args.is_empty() && recv.pure {
+    if let (Ty::Box_(t), "into_vec") = (&recv.ty, name) {
+      if let Ty::SliceOf(e) = &**t {
+        let et = ty_term(e, &cx.cty_names())?;
+        return Ok(Tr::pure(format!("(box_into_vec {} {})", et, recv.code), Ty::Vec_(e.clone())));
+      }
+    }
     match (&recv.ty, name) {
+      (Ty::Addr(_), "is_null") => return Ok(Tr::pure(format!("({} =? 0)", recv.code), Ty::Bool)),
       (Ty::Layout, "size") => return Ok(Tr::pure(format!("(l_size {})", recv.code), Ty::Usize)),
       (Ty::Layout, "align") => return Ok(Tr::pure(format!("(l_align {})", recv.code), Ty::Usize)),
       (Ty::Addr(_), "as_ptr") => return Ok(recv),
@@ -292,6 +327,11 @@ pub fn alloc_vocab_method(cx: &mut Ctx, m: &syn::ExprMethodCall, recv: Tr, name:
   // try_f(x).map_err(|(e, _v)| e).unwrap()
   if name == "unwrap" && args.is_empty() {
     if let Ty::Result(ok, err) = &recv.ty {
+      if **err == Ty::Unit {
+        let v = cx.fresh_pub("x");
+        let code = format!("({} <- {} ;; match {} with Ok t_v => Ret t_v | Err _ => Panic (W_unwrap EUnit) end)", v, recv.lifted(), v);
+        return Ok(Tr::eff(code, (**ok).clone()));
+      }
       if **err == Ty::PErr {
         let v = cx.fresh_pub("x");
         let code = format!("({} <- {} ;; match {} with Ok t_v => Ret t_v | Err t_e => Panic (W_unwrap (EP t_e)) end)", v, recv.lifted(), v);
@@ -300,6 +340,13 @@ pub fn alloc_vocab_method(cx: &mut Ctx, m: &syn::ExprMethodCall, recv: Tr, name:
     }
   }
   if name == "map_err" && args.len() == 1 {
+    // .map_err(|_| ()) on a Result whose error already carries nothing
+    if let (Ty::Result(_, err), syn::Expr::Closure(c)) = (&recv.ty, args[0]) {
+      let unit_body = matches!(&*c.body, syn::Expr::Tuple(t) if t.elems.is_empty());
+      if **err == Ty::Unit && c.inputs.len() == 1 && matches!(&c.inputs[0], syn::Pat::Wild(_)) && unit_body {
+        return Ok(recv);
+      }
+    }
     if let (Ty::Result(ok, err), syn::Expr::Closure(c)) = (&recv.ty, args[0]) {
       // |(e, _v)| e : keep the error, drop the container that came back with it
       let is_fst = c.inputs.len() == 1 && matches!(&c.inputs[0], syn::Pat::Tuple(t) if t.elems.len() == 2
